@@ -140,6 +140,10 @@ class CSSStyleSheet(cssutils.stylesheets.StyleSheet):
         cssRules.extend = self.insertRule
         cssRules.__delitem__ = self.deleteRule
 
+        for rule in getattr(self, '_cssRules', ()):
+            # rules of a replaced list are not contained anymore
+            rule._parentStyleSheet = None
+
         for rule in cssRules:
             rule._parentStyleSheet = self
 
@@ -368,7 +372,7 @@ class CSSStyleSheet(cssutils.stylesheets.StyleSheet):
 
         else:
             # reset
-            self._cssRules = oldCssRules
+            self.cssRules = oldCssRules
             self._namespaces = oldNamespaces
             self._updateVariables()
             self._cleanNamespaces()
